@@ -6,11 +6,19 @@ import glob, json, os, shutil, subprocess, sys, xml.etree.ElementTree as ET
 
 name, src, wt, prop, *checks = sys.argv[1:]
 ROOT = "/verif"
+made_wt = False
+if not os.path.isdir(wt):
+    # re-evaluation of a stored seed: rebuild the seeded tree from the stored patch
+    wt = f"/root/scratch/seedwt_{name}"
+    subprocess.run(["git", "-C", "/repo", "worktree", "add", "-f", "--detach", wt, "HEAD"], check=True, capture_output=True)
+    subprocess.run(["git", "-C", wt, "apply", os.path.join(ROOT, "seeded", name, "patch.diff")], check=True)
+    made_wt = True
 dst = os.path.join(ROOT, "seeded", name)
 os.makedirs(dst, exist_ok=True)
 for fn in ("patch.diff", "demo.py", "notes.md"):
     if os.path.exists(os.path.join(src, fn)):
         shutil.copy(os.path.join(src, fn), os.path.join(dst, fn))
+old_meta = json.load(open(os.path.join(dst, "meta.json"))) if os.path.exists(os.path.join(dst, "meta.json")) else {}
 meta = {"name": name, "breaks_property": prop, "source": "independent sub-agent given only the property text and a scratch worktree"}
 # 1. the agent's test run
 b = json.load(open("/root/.vp/BASELINE.json")); sp = set(b["stable_pass"])
@@ -23,7 +31,11 @@ for f in glob.glob(os.path.join(src, "tests", "j*.xml")):
         elif not [x for x in tc if x.tag == "skipped"]:
             passed.add(n)
 reg = [n for n in failed if n in sp]
-meta["suite_on_seeded_tree"] = {"passed": len(passed), "failed": len(failed), "stable_pass_regressions": reg, "stable_pass_missing": len(sp - passed - set(failed))}
+if not passed and old_meta.get("suite_on_seeded_tree"):
+    meta["suite_on_seeded_tree"] = old_meta["suite_on_seeded_tree"]
+    reg = []
+else:
+  meta["suite_on_seeded_tree"] = {"passed": len(passed), "failed": len(failed), "stable_pass_regressions": reg, "stable_pass_missing": len(sp - passed - set(failed))}
 if reg and all("test_multi_key_large_data" in r for r in reg):
     env = dict(os.environ, NUMBA_CACHE_DIR=f"/root/scratch/nb_seed_{name}")
     r = subprocess.run(["/venv/bin/python", "-m", "pytest", "-q", "-p", "no:cacheprovider", "tests/test_groupby/test_core.py", "-k", "test_multi_key_large_data"], cwd=wt, env=env, capture_output=True, text=True)
@@ -55,7 +67,11 @@ try:
         print(name, c, "rc=", p.returncode, sigs[:2], flush=True)
 finally:
     subprocess.run(["git", "-C", "/repo", "checkout", "--", "."], check=True)
+if old_meta.get("checks_quick_with_patch_applied") and old_meta["checks_quick_with_patch_applied"] != res:
+    meta["checks_quick_first_evaluation"] = old_meta.get("checks_quick_first_evaluation") or {k: v["rc"] for k, v in old_meta["checks_quick_with_patch_applied"].items()}
 meta["checks_quick_with_patch_applied"] = res
+if made_wt:
+    subprocess.run(["git", "-C", "/repo", "worktree", "remove", "--force", wt], capture_output=True)
 meta["what_it_needs"] = open(os.path.join(dst, "notes.md")).read()[:1500] if os.path.exists(os.path.join(dst, "notes.md")) else ""
 json.dump(meta, open(os.path.join(dst, "meta.json"), "w"), indent=1)
 print(json.dumps({k: meta[k] for k in ("demo_on_unmodified_repo", "demo_on_seeded_tree", "suite_on_seeded_tree")}, default=str)[:600])
